@@ -99,6 +99,9 @@ func (rl *ReconciledLoader) SetRemoteOnline(online bool) {
 	if rl.open && !wasOpen {
 		// if we're opening a remote request, we need to reverify against what we've loaded so far
 		rl.verifier = traversalrecord.NewVerifier(rl.traversalRecord)
+		// the new request is answered from the root: items left over from an earlier request
+		// (buffered when it went offline) would be verified as if they were that answer
+		rl.remoteQueue.clear()
 	}
 }
 
